@@ -329,6 +329,9 @@ class ExprMixin:
                     st.heap[k] = z3.If(go, a, b)
         if isinstance(first.t, T._Bool) and isinstance(rest.t, T._Bool):
             return SV(T.Bool, z3.And(first.z, rest.z) if is_and else z3.Or(first.z, rest.z))
+        if not is_and and isinstance(first.t, T.Opt) and not first.t.reflike and rest.t == first.t.t:
+            # `x or default`: a falsy x (None included) is replaced, so the result is never None
+            return SV(rest.t, z3.If(c, first.t.val(first.z), rest.z))
         try:
             return ite(go, rest, first)
         except Unsupported:
@@ -702,6 +705,10 @@ class ExprMixin:
         return z3.If(i < 0, i + n, i)
 
     def ev_Subscript(self, n, st):
+        src = ast.unparse(n)
+        if src in self.c.calls and not self.spec:
+            # a subscript whose value is given by a (trusted) accessor contract, e.g. attrs['rel'] of a parsed macro
+            return self.call_contract(self.eng.prop.contracts[self.c.calls[src]], [], {}, st, n)
         obj = self.ev(n.value, st)
         if isinstance(n.slice, ast.Slice):
             return self.slice(obj, n.slice, st)
